@@ -21,9 +21,57 @@ from vc import pipeline as P  # noqa: E402
 Stmt = Tuple[str, bool, str, Tuple[str, ...], Tuple[str, ...]]
 
 
+def is_rich(stmts: Sequence[Stmt]) -> bool:
+    return any(":" in s[2] for s in stmts)
+
+
+def _rich_expr(kind: str, direct: Tuple[str, ...], cl: Tuple[str, ...]) -> Any:
+    """Statement kinds of the RICH family (kind = '<op>:<parameters>'; the parameters are NOT reads):
+      'join:a1,a2'   out := inner_join(direct[0] as a1, direct[1] as a2)
+      'memb:Me_k'    out := direct[0]#Me_k
+      'udo:f'        out := f(direct[0])            (f is defined by build(): f(x dataset) returns dataset is x + x)
+      'calc:Me_k'    out := direct[0][calc Me_9 := Me_k + cl[0] ...]           (component + scalars inside a clause)
+      'mul:c'        out := direct[0] * c
+    """
+    a = P.A()
+    op, _, par = kind.partition(":")
+    if op == "join":
+        aliases = par.split(",")
+        j = a.JoinOp(op="inner_join", clauses=[
+            P.binop(P.var(d), "as", a.Identifier(value=al, kind="DatasetID", **P.KW)) for d, al in zip(direct, aliases)],
+            using=None, **P.KW)
+        j.isLast = True
+        return j
+    if op == "memb":
+        return P.binop(P.var(direct[0]), "#", a.Identifier(value=par, kind="ComponentID", **P.KW))
+    if op == "udo":
+        return a.UDOCall(op=par, params=[P.var(direct[0])], **P.KW)
+    if op == "calc":
+        rhs = P.var(par)
+        for c in cl:
+            rhs = P.binop(rhs, "+", P.var(c))
+        return P.clause(P.var(direct[0]), "calc", [a.Assignment(left=P.var("Me_9"), op=":=", right=rhs, **P.KW)])
+    if op == "mul":
+        return P.binop(P.var(direct[0]), "*", P.const(int(par)))
+    raise ValueError(kind)
+
+
+def _udo_def(name: str) -> Any:
+    a = P.A()
+    from vtlengine.Model import Dataset
+    return a.Operator(op=name, parameters=[a.Argument(name="x", type_=Dataset(name="x", components={}, data=None),
+                                                      default=None, **P.KW)],
+                      output_type="Dataset", expression=P.binop(P.var("x"), "+", P.var("x")), **P.KW)
+
+
 def build(stmts: Sequence[Stmt]) -> Any:
     nodes = []
+    udos = sorted({s[2].split(":", 1)[1] for s in stmts if s[2].startswith("udo:")})
+    nodes.extend(_udo_def(u) for u in udos)
     for out, pers, kind, direct, cl in stmts:
+        if ":" in kind:
+            nodes.append(P.assign(out, _rich_expr(kind, direct, cl), pers))
+            continue
         if kind == "scalar":
             expr = P.const(len(out) + 1)
         elif kind == "expr":
@@ -120,6 +168,93 @@ def _nth_product(lists: Sequence[Sequence[Any]], idx: int) -> Tuple[Any, ...]:
         idx, r = divmod(idx, len(lst))
         out.append(lst[r])
     return tuple(reversed(out))
+
+
+def show(stmts: Sequence[Stmt]) -> str:
+    """Readable VTL-like rendering of a script (all kinds)."""
+    parts = []
+    for out, pers, kind, direct, cl in stmts:
+        op, _, par = kind.partition(":")
+        if kind == "scalar":
+            rhs = "<const>"
+        elif kind == "expr":
+            rhs = " + ".join(direct)
+        elif kind == "filter":
+            rhs = f"{direct[0]}[filter " + " and ".join(f"Me_1 ? {c}" for c in cl) + "]"
+        elif op == "join":
+            rhs = "inner_join(" + ", ".join(f"{d} as {al}" for d, al in zip(direct, par.split(","))) + ")"
+        elif op == "memb":
+            rhs = f"{direct[0]}#{par}"
+        elif op == "udo":
+            rhs = f"{par}({direct[0]})"
+        elif op == "calc":
+            rhs = f"{direct[0]}[calc Me_9 := " + " + ".join((par,) + tuple(cl)) + "]"
+        elif op == "mul":
+            rhs = f"{direct[0]} * {par}"
+        else:
+            rhs = f"<{kind} {direct} {cl}>"
+        parts.append(f"{out} {'<-' if pers else ':='} {rhs}")
+    udos = sorted({s[2].split(":", 1)[1] for s in stmts if s[2].startswith("udo:")})
+    pre = "".join(f"define operator {u}(x dataset) returns dataset is x + x end operator; " for u in udos)
+    return pre + "; ".join(parts)
+
+
+# ---------------------------------------------------------------------------------------------------------------------
+# RICH family: joins with aliases, UDO calls, membership, calc clauses with scalars - with NAME COLLISIONS on purpose
+# (a join alias equal to the name of a dataset produced by another statement, ...).  Inputs DS_i(Id_1, Me_i), so that a
+# reader that is handed the wrong dataset is visible in the structures as well.
+# ---------------------------------------------------------------------------------------------------------------------
+RICH_ATTRS = ("alias", "udos", "is_dataset", "is_from_regular_aggregation", "current_deps", "is_first_assignment")
+
+
+def rich_structures(stmts: Sequence[Stmt]) -> Dict[str, Any]:
+    gi = sorted(global_inputs(stmts))
+    ds = [P.dataset_structure(n, measures=(f"Me_{n.split('_')[1]}",)) for n in gi if n.startswith("DS_")]
+    sc = [{"name": n, "type": "Integer"} for n in gi if n.startswith("sc")]
+    return P.structures(ds, sc)
+
+
+def structures_for(stmts: Sequence[Stmt]) -> Dict[str, Any]:
+    return rich_structures(stmts) if is_rich(stmts) else data_structures(stmts)
+
+
+def rich_data() -> Dict[str, Any]:
+    import pandas as pd
+    return {f"DS_{i}": pd.DataFrame({"Id_1": [1, 2, 3], f"Me_{i}": [float(i), 2.0 * i, None]}) for i in (1, 2, 3)}
+
+
+def rich_scripts() -> List[Tuple[Tuple[str, ...], List[Stmt]]]:
+    """(analyzer attributes exercised, script).  Every script: a 'special' statement S (output S1), a producer
+    O2 := DS_3 * 2 and a reader of O2 (output R3); the names introduced INSIDE S (aliases) are drawn from the names of
+    the other statements too.  The oracle `reads` is by construction: aliases / UDO names / component names are not reads."""
+    out: List[Tuple[Tuple[str, ...], List[Stmt]]] = []
+    producer: Stmt = ("O2", False, "mul:2", ("DS_3",), ())
+    readers: List[Tuple[Tuple[str, ...], Stmt]] = [
+        ((), ("R3", True, "mul:2", ("O2",), ())),
+        ((), ("R3", True, "expr", ("O2", "DS_3"), ())),
+        (("is_dataset",), ("R3", True, "memb:Me_3", ("O2",), ())),
+        (("udos",), ("R3", True, "udo:f_x", ("O2",), ())),
+        (("alias",), ("R3", True, "join:d3,d4", ("O2", "DS_1"), ())),
+        (("alias",), ("R3", True, "join:S1,d4", ("O2", "DS_1"), ())),
+        (("is_from_regular_aggregation",), ("R3", True, "calc:Me_3", ("O2",), ("sc_a",))),
+    ]
+    specials: List[Tuple[Tuple[str, ...], Stmt]] = []
+    for a1, a2 in (("d1", "d2"), ("O2", "d2"), ("d1", "O2"), ("O2", "R3"), ("R3", "O2"), ("DS_3", "O2"), ("sc_a", "O2")):
+        specials.append((("alias",), ("S1", False, f"join:{a1},{a2}", ("DS_1", "DS_2"), ())))
+    specials.append((("is_dataset",), ("S1", False, "memb:Me_1", ("DS_1",), ())))
+    specials.append((("udos",), ("S1", False, "udo:f_x", ("DS_1",), ())))
+    specials.append((("udos",), ("S1", False, "udo:O2", ("DS_1",), ())))            # UDO named like a dataset
+    specials.append((("is_from_regular_aggregation", "is_dataset"), ("S1", False, "calc:Me_1", ("DS_1",), ("sc_a",))))
+    specials.append((("is_from_regular_aggregation",), ("S1", False, "calc:Me_1", ("DS_1",), ("sc_a", "sc_b"))))
+    # a join alias equal to the name of an INPUT dataset that another statement reads (tag 'alias-shadows-input')
+    specials = [((ta + ("alias-shadows-input",)) if s[2].startswith("join:DS_3") else ta, s) for ta, s in specials]
+    for ta, s in specials:
+        for tb, r in readers:
+            stmts = [s, producer, r]
+            used = sorted({c for st in stmts for c in st[4]})
+            stmts += [(c, False, "scalar", (), ()) for c in used]
+            out.append((tuple(sorted(set(ta) | set(tb) | {"current_deps", "is_first_assignment"})), stmts))
+    return out
 
 
 def topological_ok(order: Sequence[str], stmts: Sequence[Stmt]) -> bool:
